@@ -407,6 +407,12 @@ def gen_actor_case(rng, name, props, logger=False):
         op = {"op": "acreate", "aid": aid, "oid": oid, "slab": slab, "form": rng.choice([0, 0, 1, 2])}
         if pn:
             op["pnotify"] = pn      # the child's notifier is also wired to its parent (ret_fail! / ret_failthru!)
+        if not slab and rng.random() < 0.08:
+            # an actor of a boxed trait-object type (actor_of_trait!): created, initialised at once, later released
+            ctx_ops.append({"op": "tcreate", "aid": aid, "oid": oid,
+                            "init": {"id": ids.next("item"), "ops": [], "ret": "some"}})
+            owners[oid] = aid
+            return aid
         if kind == "async":
             steps = rng.randrange(1, 4)
             # chain of prep calls to self
